@@ -111,6 +111,9 @@ func classify(via string, pv any) (string, string) {
 		return "Route.Validate", "pool_reuse"
 	case strings.Contains(s, "index out of range [-") && strings.Contains(via, "SubmitValidityProof"):
 		return "SubmitValidityProof", "negative_index"
+	case s == "Int overflow" || s == "integer overflow":
+		// cosmossdk.io/math range assertion (LegacyDec above 2^315, Int above 2^256) deep inside swap / liquidity arithmetic
+		return "math.range", "dec_overflow"
 	case strings.Contains(s, "nil pointer"):
 		return via, "nil_deref"
 	case strings.Contains(s, "interface conversion"):
@@ -139,6 +142,8 @@ func (u *U) report(via, cls string, pv any, input []byte, extraCause string) (si
 		site, cause = classify(via, pv)
 		if extraCause != "" && cause == "nil_deref" {
 			site, cause = "Route.Validate", extraCause
+		} else if via == "Route.Validate" && cause == "nil_deref" && string(input) == "Rn" {
+			cause = "nil_receiver"
 		}
 	}
 	key := check + "/" + site + "/" + cause
